@@ -3,8 +3,15 @@ import CryoCat.Lemmas.C06
 import CryoCat.Lemmas.C06_Real
 import CryoCat.Lemmas.C06_Geom
 import CryoCat.Lemmas.C06_Atan2
+import CryoCat.Lemmas.C06_Export
 /-! C06 — property theorems: rotation geometry primitives agree with SO(3) ground truth.
-Only theorems and non-vacuity examples; helper lemmas live in `Lemmas/C06*.lean`. -/
+Only theorems and non-vacuity examples; helper lemmas live in `Lemmas/C06*.lean`.
+
+The pure theorems other properties build on (`trace_rel`, `angDist_range`, `angDist_is_rotation_angle`,
+`toM3_qzxz_real`; used by C18) are proved in `Lemmas/C06_Export.lean`, which does not contain (or import) any
+translator obligation; here they are re-exported under the same names with the same statements. Other properties
+import `Lemmas/C06_Export`, never this file: this file stops building when a regenerated table of `Gen/C06.lean`
+changes, and only C06 may fail for that. -/
 namespace CryoCat.C06
 open Real
 
@@ -240,8 +247,8 @@ theorem toM3_qzxz (cp sp ct st cs ss : α) (hp : cp*cp + sp*sp = 1) (ht : ct*ct 
 /-- trace of the relative rotation `R_pᵀ·R_q` of two unit quaternions is `4(p·q)² − 1`, i.e.
 `1 + 2·cos(angle)` with `cos(angle) = 2(p·q)² − 1` -/
 theorem trace_rel (p q : Q4 α) (hp : qnormSq p = 1) (hq : qnormSq q = 1) :
-    M3.trace ((toM3 p).transpose * toM3 q) = 4 * (qdot p q * qdot p q) - 1 := by
-  rw [trace_rel', hp, hq]; ring
+    M3.trace ((toM3 p).transpose * toM3 q) = 4 * (qdot p q * qdot p q) - 1 :=
+  Export.trace_rel p q hp hq
 end ring
 
 /-- two unit quaternions describe the same rotation iff they are equal up to sign, iff `(p·q)² = 1`
@@ -280,10 +287,8 @@ theorem angDistBatch_spec (ps qs : List (Q4 ℝ)) :
     simp
 
 /-- it lies in [0, 180] degrees (for any two quaternions, unit or not) -/
-theorem angDist_range (p q : Q4 ℝ) : 0 ≤ angDist (realLibm at2) p q ∧ angDist (realLibm at2) p q ≤ 180 := by
-  obtain ⟨h0, h1⟩ := angDistRad_range at2 p q
-  simp only [angDist, toDeg_real]
-  exact ⟨mul_nonneg h0 (by positivity), deg_le _ h1⟩
+theorem angDist_range (p q : Q4 ℝ) : 0 ≤ angDist (realLibm at2) p q ∧ angDist (realLibm at2) p q ≤ 180 :=
+  Export.angDist_range at2 p q
 
 /-- it is symmetric -/
 theorem angDist_symm (p q : Q4 ℝ) : angDist (realLibm at2) p q = angDist (realLibm at2) q p := by
@@ -333,18 +338,8 @@ theorem angDist_triangle (a b c : Q4 ℝ) (ha : qnormSq a = 1) (hb : qnormSq b =
 /-- it equals the rotation angle of the relative rotation `R_pᵀ·R_q`: the angle in [0, π] whose
 cosine is `(trace − 1)/2` -/
 theorem angDist_is_rotation_angle (p q : Q4 ℝ) (hp : qnormSq p = 1) (hq : qnormSq q = 1) :
-    angDistRad (realLibm at2) p q = arccos ((M3.trace ((toM3 p).transpose * toM3 q) - 1) / 2) := by
-  rw [trace_rel p q hp hq]
-  obtain ⟨h0, h1⟩ := absDot_mem p q
-  have hle := qdot_sq_le_one p q hp hq
-  have habs : absDot p q = |qdot p q| := by
-    simp only [absDot, absv_eq_abs]
-    apply min_eq_left
-    have : |qdot p q| * |qdot p q| ≤ 1 := by rw [abs_mul_abs_self]; exact hle
-    nlinarith [abs_nonneg (qdot p q)]
-  simp only [angDistRad, realLibm]
-  rw [two_arccos _ h0 h1, habs, abs_mul_abs_self]
-  congr 1; ring
+    angDistRad (realLibm at2) p q = arccos ((M3.trace ((toM3 p).transpose * toM3 q) - 1) / 2) :=
+  Export.angDist_is_rotation_angle at2 p q hp hq
 
 /-- over the reals the clamp is invisible (`Real.arccos` is constant 0 above 1): the unclamped
 expression of the pinned commit differs from the repaired one only in floating point, where
@@ -622,15 +617,8 @@ is a unit quaternion whose rotation matrix is `Rz(ψ)·Rx(θ)·Rz(φ)`, scipy's 
 theorem toM3_qzxz_real (φ θ ψ : ℝ) :
     qnormSq (qzxz (cos (φ/2)) (sin (φ/2)) (cos (θ/2)) (sin (θ/2)) (cos (ψ/2)) (sin (ψ/2))) = 1 ∧
     toM3 (qzxz (cos (φ/2)) (sin (φ/2)) (cos (θ/2)) (sin (θ/2)) (cos (ψ/2)) (sin (ψ/2)))
-      = zxz (cos φ) (sin φ) (cos θ) (sin θ) (cos ψ) (sin ψ) := by
-  have u : ∀ x : ℝ, cos x * cos x + sin x * sin x = 1 := fun x => by
-    have := cos_sq_add_sin_sq x; nlinarith
-  have c2 : ∀ x : ℝ, cos x = cos (x/2) * cos (x/2) - sin (x/2) * sin (x/2) := fun x => by
-    have h := cos_two_mul' (x/2); rw [show 2 * (x/2) = x by ring] at h; rw [h]; ring
-  have s2 : ∀ x : ℝ, sin x = 2 * cos (x/2) * sin (x/2) := fun x => by
-    have h := sin_two_mul (x/2); rw [show 2 * (x/2) = x by ring] at h; rw [h]; ring
-  refine ⟨qnormSq_qzxz _ _ _ _ _ _ (u _) (u _) (u _), ?_⟩
-  rw [toM3_qzxz' _ _ _ _ _ _ (u _) (u _) (u _), ← c2, ← c2, ← c2, ← s2, ← s2, ← s2]
+      = zxz (cos φ) (sin φ) (cos θ) (sin θ) (cos ψ) (sin ψ) :=
+  Export.toM3_qzxz_real φ θ ψ
 
 /-- `Real.sqrt` meets the square-root assumptions of the theorems above -/
 theorem real_sqrtSpec (at2 : ℝ → ℝ → ℝ) : SqrtSpec (realLibm at2) := realLibm_sqrtSpec at2
